@@ -832,5 +832,125 @@ theorem run_log_get (E : Effects κ γ τ σ ν) (fuel : Nat) :
       simp only [Impl.run, List.take_succ_cons, List.getElem?_cons_succ]
       exact ih _ j s hs
 
+/-! ### tables that are pure only on a dependency-closed set of keys (the real table: everything except
+    the operations of known finding D9b) -/
+
+theorem purify_pure (E : Effects κ γ τ σ ν) : E.purify.Pure :=
+  ⟨fun _ => rfl, fun _ => rfl, fun _ => rfl⟩
+
+theorem readDeps_congr_on (rd rd' : Heap κ σ ν → Nat → κ → Option (Heap κ σ ν × ν)) (S : κ → Prop)
+    (hrd : ∀ h p k, S k → rd h p k = rd' h p k) (o : Nat) :
+    ∀ (ds : List (Nat × κ)) (h : Heap κ σ ν), (∀ d ∈ ds, S d.2) →
+      Impl.readDeps rd o ds h = Impl.readDeps rd' o ds h := by
+  intro ds
+  induction ds with
+  | nil => intro h _; rfl
+  | cons d ds ih =>
+    intro h hS
+    simp only [Impl.readDeps]
+    cases resolve h o d.1 with
+    | none => rfl
+    | some p =>
+      simp only
+      rw [hrd h p d.2 (hS d (List.mem_cons_self))]
+      cases rd' h p d.2 with
+      | none => rfl
+      | some r =>
+        rcases r with ⟨h1, v⟩
+        simp only
+        rw [ih h1 (fun d' hd' => hS d' (List.mem_cons_of_mem _ hd'))]
+
+/-- on keys of a clean, dependency-closed set a read behaves exactly as on the purified table -/
+theorem readF_purify (E : Effects κ γ τ σ ν) (S : κ → Prop) (hS : E.CleanOn S) :
+    ∀ n (h : Heap κ σ ν) o k, S k → Impl.readF E n h o k = Impl.readF E.purify n h o k := by
+  intro n
+  induction n with
+  | zero => intro h o k _; rfl
+  | succ n ih =>
+    intro h o k hk
+    obtain ⟨hc, hv, hd⟩ := hS k hk
+    rw [Impl.readF, Impl.readF]
+    cases h[o]? with
+    | none => rfl
+    | some ob =>
+      simp only
+      cases lookupCache ob.cache k with
+      | some v => rfl
+      | none =>
+        simp only
+        have hdeps : E.purify.deps k = E.deps k := rfl
+        rw [hdeps, readDeps_congr_on (Impl.readF E n) (Impl.readF E.purify n) S
+          (fun h p k hk => ih h p k hk) o (E.deps k) h hd]
+        cases Impl.readDeps (Impl.readF E.purify n) o (E.deps k) h with
+        | none => rfl
+        | some r =>
+          rcases r with ⟨h1, vs⟩
+          simp only
+          cases h1[o]? with
+          | none => rfl
+          | some ob1 =>
+            simp only [hc, hv, applyCWrites_nil, applyVWrites_nil]
+            rfl
+
+/-- every read of the history is of a key in `S` -/
+def ReadsIn (S : κ → Prop) (hist : List (Impl.Step κ γ τ σ)) : Prop :=
+  ∀ s ∈ hist, match s with
+    | .read _ k => S k
+    | _ => True
+
+theorem step_purify (E : Effects κ γ τ σ ν) (S : κ → Prop) (hS : E.CleanOn S)
+    (hctor : ∀ t, E.ctorWrites t = []) (fuel : Nat) (h : Heap κ σ ν) (s : Impl.Step κ γ τ σ)
+    (hs : match s with | .read _ k => S k | _ => True) :
+    Impl.step E fuel h s = Impl.step E.purify fuel h s := by
+  cases s with
+  | construct t c ps =>
+    simp only [Impl.step, hctor t]
+    rfl
+  | read o k =>
+    simp only [Impl.step]
+    rw [readF_purify E S hS fuel h o k hs]
+  | derive o g => rfl
+
+theorem run_purify (E : Effects κ γ τ σ ν) (S : κ → Prop) (hS : E.CleanOn S)
+    (hctor : ∀ t, E.ctorWrites t = []) (fuel : Nat) :
+    ∀ (hist : List (Impl.Step κ γ τ σ)) (h : Heap κ σ ν), ReadsIn S hist →
+      Impl.run E fuel hist h = Impl.run E.purify fuel hist h := by
+  intro hist
+  induction hist with
+  | nil => intro h _; rfl
+  | cons s ss ih =>
+    intro h hr
+    simp only [Impl.run]
+    rw [step_purify E S hS hctor fuel h s (hr s List.mem_cons_self)]
+    rw [ih _ (fun s' hs' => hr s' (List.mem_cons_of_mem _ hs'))]
+
+theorem value_purify (E : Effects κ γ τ σ ν) (h : Heap κ σ ν) :
+    ∀ n o k, Spec.value E.purify n h o k = Spec.value E n h o k := by
+  intro n
+  induction n with
+  | zero => intro o k; rfl
+  | succ n ih =>
+    intro o k
+    simp only [Spec.value]
+    have : Spec.value E.purify n h = Spec.value E n h := by
+      funext p k'; exact ih p k'
+    rw [this]
+    rfl
+
+theorem keepSound_purify (E : Effects κ γ τ σ ν) (hk : KeepSound E) : KeepSound E.purify := by
+  intro g k hkeep h o ob wf ho n v hv
+  rw [value_purify] at hv
+  obtain ⟨m, hm⟩ := hk g k hkeep h o ob wf ho n v hv
+  exact ⟨m, by rw [value_purify]; exact hm⟩
+
+theorem filter_readsIn (S : κ → Prop) (hist : List (Impl.Step κ γ τ σ)) :
+    ReadsIn S (hist.filter Impl.Step.isStructural) := by
+  intro s hs
+  have := (List.mem_filter.mp hs).2
+  cases s with
+  | read o k => simp [Impl.Step.isStructural] at this
+  | construct t c ps => trivial
+  | derive o g => trivial
+
 end Purity
 end Model
